@@ -689,6 +689,8 @@ func authAll() {
 		nil,
 		{},
 		{{2, ref.UTF16LE("DOMAIN")}, {1, ref.UTF16LE("SERVER")}, {4, ref.UTF16LE("domain.local")}, {3, ref.UTF16LE("server.domain.local")}, {7, []byte{1, 2, 3, 4, 5, 6, 7, 8}}},
+		{{2, ref.UTF16LE("DOMAIN")}, {12, []byte{0xAB}}, {7, []byte{1, 2, 3, 4, 5, 6, 7, 8}}},
+		{{11, []byte{1, 2, 3}}},
 	}
 	i := 0
 	for _, ess := range []bool{false, true} {
@@ -792,7 +794,11 @@ func authAll() {
 			flags |= fTargetInfo
 			var ps []avPair
 			for _, id := range rng.Perm(10)[:rng.IntN(7)] {
-				ps = append(ps, avPair{uint16(id + 1), gen.Bytes(rng, 2*rng.IntN(20))})
+				vl := 2 * rng.IntN(20)
+				if rng.IntN(4) == 0 {
+					vl++ // a value of odd length (an id this client does not know): the list, and all that follows it, starts on an odd offset
+				}
+				ps = append(ps, avPair{uint16(id + 1), gen.Bytes(rng, vl)})
 			}
 			ti = encodeAV(ps)
 		}
@@ -923,6 +929,13 @@ func main() {
 		"the AUTHENTICATE verifier reads UserName/DomainName from the message like a server; the letter case of the domain in the message is not judged",
 		"'exhaustive' refers only to the two parity sub-domains named in the rule",
 	)
+	// race side run (./check builds this monitor with -race): only the workloads in which goroutines
+	// use the library at the same time; the detector's reports are filed by Finish
+	if mon.SideRace() {
+		concurrentCallers()
+		sharedReaders()
+		r.Finish()
+	}
 	anchors()
 	parity()
 	ntlmv1All()
@@ -930,6 +943,8 @@ func main() {
 	authAll()
 	carryOver()
 	concurrentCallers()
+	sharedReaders()
+	literalObjects()
 	heldFinal()
 	r.Finish()
 }
